@@ -51,6 +51,7 @@ pub struct Params {
     pub quiesce_end: bool,
     pub cleaner_idioms: bool,
     pub forward_idioms: bool,
+    pub saturate_idioms: bool,
     pub exact_threshold_prologue: u32, // percent of runs that start by driving allocated bytes exactly onto the threshold
 }
 
@@ -67,7 +68,7 @@ pub fn params(profile: &str) -> Params {
     set(
         &mut w,
         &[
-            (O::New, 14), (O::NewLeaf, 2), (O::Clone, 10), (O::Drop, 16), (O::SetSlot, 18), (O::ClearSlot, 5), (O::SetPin, 2), (O::ClearPin, 1),
+            (O::New, 14), (O::NewLeaf, 2), (O::Clone, 10), (O::Drop, 16), (O::SetSlot, 18), (O::MoveSlot, 3), (O::ClearSlot, 5), (O::SetPin, 2), (O::ClearPin, 1),
             (O::MarkAlive, 2), (O::MarkAliveSlot, 1), (O::Collect, 7), (O::Quiesce, 2), (O::TryUnwrap, 2), (O::DropUnwrapped, 1),
         ],
     );
@@ -111,6 +112,7 @@ pub fn params(profile: &str) -> Params {
         quiesce_end: true,
         cleaner_idioms: false,
         forward_idioms: false,
+        saturate_idioms: false,
         exact_threshold_prologue: 0,
     };
     let all_faults = vec![
@@ -204,7 +206,8 @@ pub fn params(profile: &str) -> Params {
             set(&mut p.w, &[(O::BulkClone, 10), (O::BulkUpgrade, 6), (O::BulkWeakClone, 6), (O::BulkDowngrade, 6), (O::BulkDrop, 6), (O::BulkWeakDrop, 4), (O::Clone, 8), (O::Upgrade, 6), (O::Downgrade, 6), (O::WeakClone, 4), (O::BulkRegister, 4), (O::BulkClean, 3), (O::BulkEdges, 6), (O::BulkEdgesDrop, 3), (O::Collect, 10)]);
             p.ops = (4, 12, 30);
             p.max_objects = 6;
-            p.idiom_rate = 10;
+            p.idiom_rate = 15;
+            p.saturate_idioms = true;
         }
         "layout" => {
             set(&mut p.w, &[(O::NewLeaf, 30), (O::NewCyclicLeaf, 6), (O::TryUnwrap, 8), (O::DropUnwrapped, 4), (O::SetSlot, 22)]);
@@ -384,6 +387,7 @@ impl<'a> Gen<'a> {
             O::NewKeyI => Op::new(O::NewKeyI, &[self.r.below(5) as i64 - 2]),
             O::NewKeyF => Op::new(O::NewKeyF, &[self.r.below(8) as i64]),
             O::SetSlot => Op::new(O::SetSlot, &[n, self.r.below(6) as i64, if self.r.chance(1, 6) { n } else { h }]),
+            O::MoveSlot => Op::new(O::MoveSlot, &[n, self.r.below(6) as i64, h]),
             O::ClearSlot | O::MarkAliveSlot => Op::new(code, &[n, self.r.below(6) as i64]),
             O::SetPin => Op::new(O::SetPin, &[n, h]),
             O::ClearPin => Op::new(O::ClearPin, &[n, self.r.below(3) as i64]),
@@ -432,6 +436,34 @@ impl<'a> Gen<'a> {
     fn idiom(&mut self) {
         use OpCode as O;
         let base = self.sh.roots.len() as i64;
+        if self.p.saturate_idioms && self.r.chance(1, 2) {
+            // every one of (about) 16382 pointers to one object sits in a traced field of a live owner, and a collection
+            // visits them all: the tracing counter itself reaches the limit
+            let t = self.tmpl();
+            self.push(Op::new(O::New, &[]).with_tmpl(t));
+            let t2 = self.tmpl();
+            self.push(Op::new(O::New, &[]).with_tmpl(t2));
+            if HAS_WEAK {
+                self.push(Op::new(O::Downgrade, &[base + 1]));
+            }
+            let n = 16381 - self.r.below(3) as i64 + if self.r.chance(1, 4) { 2 } else { 0 };
+            self.push(Op::new(O::BulkEdges, &[base, base + 1, n]));
+            self.push(Op::new(O::MoveSlot, &[base, 0, base + 1]));
+            self.push(Op::new(O::Clone, &[base]));
+            let c = self.sh.roots.len() as i64 - 1;
+            self.push(Op::new(O::Drop, &[c]));
+            self.push(Op::new(O::Collect, &[]));
+            if HAS_WEAK {
+                let w = (self.sh.weaks as i64 - 1).max(0);
+                let code = if self.r.chance(1, 2) { O::Upgrade } else { O::UpgradeDrop };
+                self.push(Op::new(code, &[w]));
+            }
+            if self.r.chance(1, 2) {
+                self.push(Op::new(O::Drop, &[base]));
+                self.push(Op::new(O::Collect, &[]));
+            }
+            return;
+        }
         if self.p.forward_idioms && self.r.chance(1, 2) {
             // two distinct allocations of the same payload type (zero-sized and over-aligned ones included), a clone, and
             // every pairing compared: ptr_eq must tell allocations apart, not values or addresses of zero-sized values
